@@ -306,6 +306,28 @@ func run(id string, info propInfo, tier string, seed uint64, replay string) int 
 	}
 	wg.Wait()
 
+	// engine F: after the rapid shards of a thorough C06 run, one native fuzz campaign (all cores, time-boxed)
+	if id == "C06" && tier == "thorough" {
+		out := filepath.Join(scratch, "shard-fuzz.json")
+		c := exec.Command(testBin, "-test.run", "^TestFuzzC06$", "-test.count=1", "-test.timeout", "0")
+		c.Dir = scratch
+		c.Env = append(append([]string{}, baseEnv...), "VERIF_FUZZ=1", "VERIF_SHARD_OUT="+out, "VERIF_SHARD=fuzz", "VERIF_REPLAY_DIR="+newDir,
+			"VERIF_ROOT="+verifRoot)
+		o, err := c.CombinedOutput()
+		var fs props.Shard
+		if bts, rerr := os.ReadFile(out); rerr == nil && json.Unmarshal(bts, &fs) == nil {
+			if fs.Infra == "" && (err == nil || fs.Violation != "") {
+				shards = append(shards, &fs)
+				outputs = append(outputs, string(o))
+				st := 0
+				if err != nil {
+					st = 1
+				}
+				status = append(status, st)
+				timedOut = append(timedOut, false)
+			}
+		}
+	}
 	code := 0
 	var violMsg, violReplay string
 	for i, s := range shards {
@@ -494,7 +516,7 @@ func writeEvidence(id, tier string, seed uint64, info propInfo, shards []*props.
 			excluded[k] += v
 		}
 		for _, sm := range s.Samples {
-			if len(samples) < 4 {
+			if len(samples) < 4 || strings.Contains(string(sm), "rapid.MakeFuzz") { // the fuzz campaign's summary is always kept
 				samples = append(samples, sm)
 			}
 		}
